@@ -16,7 +16,7 @@ from openmdao.core.system import System, _supported_methods, _DEFAULT_COLORING_M
     global_meta_names, _iter_derivs
 from openmdao.core.constants import INT_DTYPE, _DEFAULT_OUT_STREAM, _SetupStatus
 from openmdao.jacobians.subjac import Subjac
-from openmdao.jacobians.dictionary_jacobian import _CheckingJacobian
+from openmdao.jacobians.dictionary_jacobian import _CheckingJacobian, Jacobian
 from openmdao.utils.units import simplify_unit
 from openmdao.utils.name_maps import abs_key_iter, abs_key2rel_key, rel_key2abs_key
 from openmdao.utils.mpi import MPI
@@ -253,6 +253,23 @@ class Component(System):
                 self._vector_class = self._local_vector_class
         else:
             self._vector_class = self._local_vector_class
+
+    def _set_complex_step_mode(self, active):
+        """
+        Turn on or off complex stepping mode.
+
+        Parameters
+        ----------
+        active : bool
+            Complex mode flag; set to True prior to commencing complex step.
+        """
+        super()._set_complex_step_mode(active)
+
+        if self._doutputs._alloc_complex and isinstance(self._jacobian, Jacobian):
+            # Components whose partials are all constant are never re-linearized, so their
+            # sub-jacobians would keep the dtype, and the cached views of the linear vectors,
+            # of the previous mode.
+            self._jacobian._pre_update(self._doutputs.asarray().dtype)
 
     def _configure_check(self):
         """
